@@ -178,7 +178,12 @@ func DecodePng(r io.ReadSeeker) (exif2.Exif, error) {
 	ir := exif2.NewIfdReader(exif2.Logger)
 	defer ir.Close()
 
-	if err := ir.DecodeTiff(r, header); err != nil {
+	// read the eXIf chunk through a buffered reader, as the other containers do
+	rr := readerPool.Get().(*bufio.Reader)
+	rr.Reset(r)
+	defer readerPool.Put(rr)
+
+	if err := ir.DecodeTiff(rr, header); err != nil {
 		return ir.Exif, err
 	}
 
